@@ -32,6 +32,8 @@ def to_pandas(frame):
             data[c["name"]] = pd.array([None if x is None else int(x) for x in v], dtype="Int64")
         elif t == "float":
             data[c["name"]] = np.array([np.nan if x is None else float(Fraction(x)) for x in v], dtype="float64")
+        elif t == "datetime":
+            data[c["name"]] = pd.to_datetime(pd.Series(v, dtype="object"))
         elif t == "str":
             data[c["name"]] = np.array([np.nan if x is None else x for x in v], dtype=object)
         elif t == "cat":
@@ -57,6 +59,8 @@ def frame_sexp(frame):
     out = []
     for c in frame["columns"]:
         t = c["type"]
+        if t == "datetime":
+            continue  # never used by a formula: the model has no such column type
         if t in ("int", "float", "nint"):
             isint = "int" if (t in ("int", "nint") and not any(x is None for x in c["values"])) else "float"
             out.append([c["name"], ["num", isint, [_cell(x) for x in c["values"]]]])
